@@ -50,17 +50,21 @@ where
       source.inner_subscribe(sctl.new_observer(
         move |_, x: Item| {
           let key = f.call(x.clone()); // Umm, can I use it as a reference?
-          let sbj = {
+          // decide under the lock, hand the new group downstream without it,
+          // so that a subscriber may emit into the source from its callback
+          let (sbj, is_new) = {
             let mut sbjmap = sbjmap_next.write().unwrap();
             if let Some(sbj) = sbjmap.get(&key) {
-              sbj.clone()
+              (sbj.clone(), false)
             } else {
               let sbj = subjects::Subject::<Item>::new();
               sbjmap.insert(key, sbj.clone());
-              sctl_next.sink_next(sbj.observable());
-              sbj
+              (sbj, true)
             }
           };
+          if is_new {
+            sctl_next.sink_next(sbj.observable());
+          }
           sbj.next(x);
         },
         move |_, e| {
